@@ -236,11 +236,10 @@ func (e *Engine) callContract(st *State, fr *Frame, callee *ssa.Function, c *Con
 		e.interfere(st)
 	}
 	// ownership: structures passed to `owns` parameters are folded first (their views become terms)
-	for _, on := range c.Owns {
-		if av, ok := vars[on]; ok {
-			if od := e.isOwnedPtr(av.T); od != nil {
-				e.closeChunk(st, od, av.L[0], av.T.Underlying().(*types.Pointer).Elem(), "call "+key)
-			}
+	ownsVals := e.ownedExprs(c.Owns, &SpecEnv{e: e, st: st, old: st, fr: cfr, vars: vars, env: env, pkg: c.Pkg})
+	for _, av := range ownsVals {
+		if od := e.isOwnedPtr(av.T); od != nil {
+			e.closeChunk(st, od, av.L[0], av.T.Underlying().(*types.Pointer).Elem(), "call "+key)
 		}
 	}
 	pre := st.Clone()
@@ -261,11 +260,9 @@ func (e *Engine) callContract(st *State, fr *Frame, callee *ssa.Function, c *Con
 		st.Assume(g)
 	}
 	// the callee consumes what it owns
-	for _, on := range c.Owns {
-		if av, ok := vars[on]; ok {
-			if od := e.isOwnedPtr(av.T); od != nil {
-				e.consumeBelow(st, od, av.L[0], av.T.Underlying().(*types.Pointer).Elem(), 0)
-			}
+	for _, av := range ownsVals {
+		if od := e.isOwnedPtr(av.T); od != nil {
+			e.consumeBelow(st, od, av.L[0], av.T.Underlying().(*types.Pointer).Elem(), 0)
 		}
 	}
 	// havoc what the callee may assign
@@ -298,10 +295,11 @@ func (e *Engine) callContract(st *State, fr *Frame, callee *ssa.Function, c *Con
 			nodeOnly = true
 			name = strings.TrimSuffix(strings.TrimPrefix(g, "node("), ")")
 		}
-		rv, ok := post[name]
-		if !ok {
+		gvs := e.ownedExprs([]string{name}, &SpecEnv{e: e, st: st, old: pre, fr: cfr, vars: post, env: env, pkg: c.Pkg})
+		if len(gvs) == 0 {
 			continue
 		}
+		rv := gvs[0]
 		od := e.isOwnedPtr(rv.T)
 		if od == nil {
 			continue
@@ -408,6 +406,9 @@ func (e *Engine) havocAssigns(st *State, pre *State, c *Contract, se *SpecEnv, v
 		case strings.HasPrefix(a, "ghost("):
 			name := strings.TrimSuffix(strings.TrimPrefix(a, "ghost("), ")")
 			e.havocGhostNamed(st, name, se)
+		case strings.HasPrefix(a, "log("):
+			name := strings.TrimSuffix(strings.TrimPrefix(a, "log("), ")")
+			e.havocLog(st, e.logKey(name, se))
 		default:
 			panic(unsupported("assigns clause %q", a))
 		}
@@ -739,4 +740,17 @@ func (e *Engine) invoke(st *State, fr *Frame, recv Val, m *types.Func, args []Va
 		return
 	}
 	panic(unsupported("interface method call %s.%s without a contract", recv.T, m.Name()))
+}
+
+// ownedExprs evaluates the pointer-valued expressions of an owns/gives clause.
+func (e *Engine) ownedExprs(exprs []string, se *SpecEnv) []Val {
+	var out []Val
+	for _, x := range exprs {
+		ex, err := ParseSpecExpr(x)
+		if err != nil {
+			panic(unsupported("owns/gives %q: %v", x, err))
+		}
+		out = append(out, e.evalSpec(ex, se))
+	}
+	return out
 }
